@@ -58,6 +58,16 @@ claim("C12",
       "function declining a sub-folder, on the real engine; 'move out = delete, move in = create' is checked as convergence of the views.",
       ENGINE_NOTE, ENGINE_TECH, "DESIGN.md §3.2, §6 C12")
 
+claim("C05",
+      "Coq proof: the contract is an executable specification (ResolverSpec.outcome: resolver calls, bytes it must see, both quiet-state "
+      "views) whose clauses are theorems for all contents/names/answers (called once with the true bytes iff contents differ; pick => both "
+      "sides that content and the loser kept as '.conflicted' on the losing side iff keep; merged+nokeep => both merged; None/exception/"
+      "garbage => remote wins, local kept). The spec has no schedule argument; the tie is exhaustive: every product case of contents x "
+      "10 resolver behaviours x shapes x 4 flavours x all schedules of <= 4 engine steps runs on the real engine and must be accepted.",
+      "Trusted: Coq kernel; extraction + driver; harness observers. The engine's conflict path is not modelled; merged+keep, temporary "
+      "errors from the resolver and path-style ids are outside the explored product.",
+      "machine-checked proof (Coq) of an executable outcome specification + exhaustive product of real engine runs accepted by it", "DESIGN.md §6 C05")
+
 ALL = ["C%02d" % i for i in range(1, 21)]
 
 
